@@ -245,7 +245,66 @@ def memory_cases(tier, shard, nshards):
             yield {"buffer": B, "width": width, "eol": eol, "length": 400 * B + 13 * k, "pattern": patterns[(k + 1) % 3]}
 
 
+def ragged_bytes(case):
+    out = []
+    for name, seq, widths, eol in case["records"]:
+        out.append(f">{name}".encode() + eol.encode())
+        at = 0
+        k = 0
+        while at < len(seq):
+            w = widths[k % len(widths)]
+            out.append(seq[at : at + w].encode("latin-1") + eol.encode())
+            at += w
+            k += 1
+    return b"".join(out)
+
+
+def body_ragged(case, rec):
+    """
+    Records whose lines have IRREGULAR widths (hand-edited or re-joined FASTA). The faidx line-width pair is not
+    defined for them, but names, lengths, offsets and the derived assembly are, and all of it has to be the same for
+    every buffer size; the derived assembly is also compared with the run-length reference.
+    """
+    data = ragged_bytes(case)
+    recs = ref.read_fasta(data)
+    widths = sorted({w for _n, _s, ws, _e in case["records"] for w in ws})
+    bufs = case["buffers"]
+    rec.note(case, len(widths) >= 2 and any(widths[0] <= b < widths[-1] for b in bufs), {"ragged"})
+    want_asm = []
+    for r in recs:
+        rows = [["F", r["name"], a, b, 1] if is_seq else ["G", b - a + 1, "scaffold"] for is_seq, a, b in ref.acgt_runs(r["seq"])]
+        want_asm.append([r["name"], rows])
+    with fa.TempFasta(data) as path:
+        base_idx, base_asm = must(index_fasta_file, path, 10**6, what="index_fasta_file(10^6)")
+        base = (idx_plain(base_idx), conv.plain_assembly(base_asm))
+        if base[1] != want_asm:
+            raise Violation(f"derived assembly with buffer 10^6 {base[1][:2]} != run-length reference {want_asm[:2]}")
+        for r, (n, length, offset, *_rest) in zip(recs, base[0]):
+            if (n, length, offset) != (r["name"], len(r["seq"]), r["offset"]):
+                raise Violation(f"index row ({n},{length},{offset}) != reference ({r['name']},{len(r['seq'])},{r['offset']})")
+        for b in bufs:
+            idx, asm = must(index_fasta_file, path, b, what=f"index_fasta_file(buffer={b})")
+            got = (idx_plain(idx), conv.plain_assembly(asm))
+            if got != base:
+                raise Violation(f"irregular line widths {widths}: indexing with buffer {b} differs from buffer 10^6: {got[1][:2]} vs {base[1][:2]}")
+
+
+@st.composite
+def ragged_cases(draw):
+    records = []
+    for i in range(draw(st.integers(1, 3))):
+        n = draw(st.integers(1, 240))
+        seq = draw(gen.residue_string(n))
+        widths = draw(st.lists(st.sampled_from([1, 2, 3, 6, 7, 11, 27, 52, 60, 61, 80]), min_size=2, max_size=5))
+        records.append([f"r{i + 1}", seq, widths, draw(st.sampled_from(["\n", "\n", "\r\n"]))])
+    ws = sorted({w for r in records for w in r[2]})
+    bufs = draw(st.lists(st.sampled_from(sorted({1, 2, 5, 64} | set(ws) | {w - 1 for w in ws if w > 1} | {w + 1 for w in ws})), min_size=3, max_size=5, unique=True))
+    return {"records": records, "buffers": bufs}
+
+
 SUBS = [
+    Sub("ragged", kind="hyp", strategy=ragged_cases, body=body_ragged,
+        budget={"quick": 3200, "thorough": 60000}, desc="records with irregular line widths: names, lengths, offsets and derived assembly identical for every buffer size and equal to the run-length reference"),
     Sub("differential", kind="hyp", strategy=diff_cases, body=body_diff,
         budget={"quick": 3200, "thorough": 80000}, desc="index and stream identical for every buffer size; chunk/read/write monitors"),
     Sub("memory", kind="enum", cases=memory_cases, body=body_memory,
